@@ -2418,7 +2418,7 @@ impl BytecodeVM {
             Op::Eq { dst, left, right } => {
                 let left_val = self.get_reg(left);
                 let right_val = self.get_reg(right);
-                let result = interp.abstract_equals(left_val, right_val);
+                let result = interp.abstract_equals(left_val, right_val)?;
                 self.set_reg(dst, JsValue::Boolean(result));
                 Ok(OpResult::Continue)
             }
@@ -2426,7 +2426,7 @@ impl BytecodeVM {
             Op::NotEq { dst, left, right } => {
                 let left_val = self.get_reg(left);
                 let right_val = self.get_reg(right);
-                let result = interp.abstract_equals(left_val, right_val);
+                let result = interp.abstract_equals(left_val, right_val)?;
                 self.set_reg(dst, JsValue::Boolean(!result));
                 Ok(OpResult::Continue)
             }
